@@ -48,6 +48,8 @@ class _NP(pytypes.ModuleType):
     def __init__(s): super().__init__('numpy_for_types'); s.ndarray = SymView
     def __getattr__(s, n): return getattr(numpy, n)
 
+_KEEP = []
+
 def differs(v1, v2):
     'z3 term: the two views do not denote the same array'
     if v1.typestr != v2.typestr or v1.ndim != v2.ndim: return z3.BoolVal(True)
@@ -73,6 +75,7 @@ def obligations():
                     f = ntypes.lru_cache(lambda arr: calls.append(arr.name) or len(calls))
                     f(a)
                     f(b)
+                    _KEEP.append((a, b, f))      # the cache holds weak references whose callbacks compare symbolic keys: keep the views alive for the life of the process
                     return list(calls), a, b
                 a0, b0 = SymView('A', nd1, t1), SymView('B', nd2, t2)
                 paths, complete = explore(run, assumptions=a0.assume + b0.assume, max_paths=64, timeout_ms=10000)
